@@ -33,7 +33,7 @@ META = dict(
 RULE = ('one case = one (family, parameters, formula class) comparison or one malformed call; non-trivial = the formula has '
         'at least one variable or one clause; distinct = distinct (stream, family, parameters, class) keys')
 TRUSTED = ['independent oracles decode_ok/exists of harness/fam_c01.py are used only to search failing inputs and as a labelled test',
-           'picosat via cnfgen solve() (if installed) only inside the failing-input search']
+           'picosat (or z3 from python3-vt) with a timeout, only inside the failing-input search; every candidate is re-checked by evaluation']
 
 BRUTE = 20
 
@@ -62,11 +62,14 @@ def classify(fam, p):
     return 'general'
 
 
-def semantic_search(fam, p, numvar, sat_fun, limit=BRUTE):
+def semantic_search(fam, p, numvar, sat_fun, limit=BRUTE, max_mentioned=lambda: 0):
     """search a failing input of the PROPERTY on the implementation's formula:
     an assignment whose satisfaction differs from the oracle, or SAT differing from `exists`."""
     if numvar is None or numvar > limit:
         return None
+    top = max_mentioned()
+    if top > numvar:
+        return dict(reason='the formula mentions variable %d beyond its number of variables %d' % (top, numvar))
     anysat = False
     for a in assignments(numvar):
         s = sat_fun(a)
@@ -84,13 +87,86 @@ def semantic_search(fam, p, numvar, sat_fun, limit=BRUTE):
     return None
 
 
-def sat_large(F):
-    """SAT oracle for the failing-input search at larger sizes (picosat through cnfgen), None if unavailable"""
+def sat_solve(nv, clauses, timeout=15):
+    """SAT oracle used ONLY inside the failing-input search: an assignment (list indexed by variable),
+    False (unsatisfiable) or None (unknown / no solver / timeout)."""
+    import os
+    import subprocess
+    import tempfile
+    text = 'p cnf %d %d\n' % (nv, len(clauses)) + ''.join(' '.join(map(str, c)) + ' 0\n' for c in clauses)
     try:
-        r = F.solve()
-        return bool(r[0])
+        if os.path.exists('/usr/bin/picosat'):
+            r = subprocess.run(['/usr/bin/picosat'], input=text, capture_output=True, text=True, timeout=timeout)
+            if r.returncode == 20:
+                return False
+            if r.returncode != 10:
+                return None
+            a = [None] + [False] * nv
+            for ln in r.stdout.split('\n'):
+                if ln.startswith('v '):
+                    for t in ln[2:].split():
+                        v = int(t)
+                        if v != 0 and abs(v) <= nv:
+                            a[abs(v)] = v > 0
+            return a
+        with tempfile.NamedTemporaryFile('w', suffix='.cnf', delete=False) as f:
+            f.write(text)
+        prog = ('import z3,sys\ns=z3.Solver()\ns.from_file(sys.argv[1])\nr=s.check()\n'
+                'print(r)\nif r==z3.sat:\n m=s.model()\n print(" ".join(d.name()[2:] for d in m.decls() if z3.is_true(m[d])))')
+        r = subprocess.run(['python3-vt', '-c', prog, f.name], capture_output=True, text=True, timeout=timeout)
+        os.unlink(f.name)
+        out = r.stdout.split('\n')
+        if out[0] == 'unsat':
+            return False
+        if out[0] != 'sat':
+            return None
+        a = [None] + [False] * nv
+        for t in out[1].split():
+            if t.isdigit() and int(t) <= nv:
+                a[int(t)] = True
+        return a
     except Exception:
         return None
+
+
+def sat_guided_search(fam, p, nv, impl, model, queries=8):
+    """The model's clause set is PROVED to describe exactly the objects (T1).  For a clause of the model
+    missing in the implementation look for an assignment satisfying the implementation and falsifying
+    that clause (a non-object accepted); for an extra clause of the implementation look for an
+    assignment satisfying the model (an object) and falsifying it.  Every candidate is re-checked with the
+    independent oracle decode_ok before it is reported."""
+    ci, cm = set(canon(impl)), set(canon(model))
+    if any(len(c) == 0 for c in impl) and any(len(c) == 0 for c in model):
+        return None
+    n = 0
+    for c in sorted(cm - ci, key=len):
+        if n >= queries:
+            break
+        n += 1
+        a = sat_solve(nv, impl + [[-l] for l in c])
+        if a:
+            try:
+                ok = fam['decode_ok'](p, a)
+            except IndexError:
+                ok = None
+            if ok is False and cnf_sat(a, impl):
+                return dict(reason='assignment satisfies the formula', formula_satisfied=True, object_ok=False,
+                            true_variables=[v for v in range(1, nv + 1) if a[v]][:400])
+    n = 0
+    for c in sorted(ci - cm, key=len):
+        if n >= queries:
+            break
+        n += 1
+        a = sat_solve(nv, model + [[-l] for l in c])
+        if a:
+            try:
+                ok = fam['decode_ok'](p, a)
+            except IndexError:
+                ok = None
+            if ok is True and not cnf_sat(a, impl):
+                return dict(reason='assignment describes a documented object but falsifies the formula', formula_satisfied=False,
+                            object_ok=True, true_variables=[v for v in range(1, nv + 1) if a[v]][:400])
+    return None
 
 
 def compare_one(ctx, fam, p, reply, stream):
@@ -127,14 +203,27 @@ def compare_one(ctx, fam, p, reply, stream):
         if cls_name == 'CNF':
             impl = [list(c) for c in F]
             sat_fun = lambda a, impl=impl: cnf_sat(a, impl)
+            top = lambda impl=impl: max([abs(l) for c in impl for l in c] or [0])
         else:
             impl = norm_opb(list(F))
             sat_fun = lambda a, impl=impl: all(pb_sat(a, c) for c in impl)
+            top = lambda impl=impl: max([abs(t[1]) for c in impl for t in c[:-2]] or [0])
         if model_raises:
             ctx.disagreements_checked += 1
             if docvalid and stream != 'malformed':
-                # the model is faithful to a known deviation; the code now builds a formula: accept it iff it is right
-                w = semantic_search(fam, p, nv, sat_fun)
+                # the model is faithful to a known deviation; the code now builds a formula: accept it iff it is right.
+                # First the documented-behaviour variant of the model (f_spec of DESIGN 6.6), then the oracle.
+                if 'spec_request' in fam:
+                    srep = ctx.model.batch([fam['spec_request'](p)])[0]
+                    if not is_error(srep) and not (len(srep) == 2 and srep[0] == 'raises'):
+                        s_nv, s_cnf, s_opb = srep
+                        same = (nv == s_nv and (canon(impl) == canon(s_cnf) if cls_name == 'CNF'
+                                                else impl == [pbc_to_py(c) for c in s_opb]))
+                        if same:
+                            ctx.note('%s%r (%s): implementation agrees with the documented-behaviour model (finding repaired)'
+                                     % (name, p, cls_name))
+                            continue
+                w = semantic_search(fam, p, nv, sat_fun, max_mentioned=top)
                 if w is None and nv <= BRUTE:
                     ctx.note('%s%r: the implementation now returns a formula that passes the oracle (deviation repaired?)' % (name, p))
                     continue
@@ -156,8 +245,13 @@ def compare_one(ctx, fam, p, reply, stream):
                 else:
                     ok = False
         else:
-            if impl != [pbc_to_py(c) for c in m_opb]:
-                ok = False
+            mo = [pbc_to_py(c) for c in m_opb]
+            if impl != mo:
+                # the constraint list is a conjunction: a permutation has the same models (opb_sat is a forallb)
+                if sorted(map(repr, impl)) == sorted(map(repr, mo)):
+                    order_only = True
+                else:
+                    ok = False
         doc = fam['numvar_doc'](p)
         if doc is not None and doc != nv:
             ctx.disagreements_checked += 1
@@ -170,12 +264,14 @@ def compare_one(ctx, fam, p, reply, stream):
             continue
         # ---- disagreement: look for an input on which the property itself fails
         ctx.disagreements_checked += 1
-        w = semantic_search(fam, p, nv, sat_fun)
-        if w is None and nv > BRUTE and cls_name == 'CNF':
-            ex = fam['exists'](p)
-            s = sat_large(F)
-            if ex is not None and s is not None and ex != s:
-                w = dict(reason='satisfiability differs from existence of the object (SAT solver)', satisfiable=s, object_exists=ex)
+        found = ctx.__dict__.setdefault('c01_found', set())
+        if (site, cls_name) in found:
+            # a failing input of this site/class is already in a replay file: only count this occurrence
+            ctx.violation('counterexample', 'see first occurrence', {}, True, site=site, cls='semantics-' + cls_name)
+            continue
+        w = semantic_search(fam, p, nv, sat_fun, max_mentioned=top)
+        if w is None and nv > BRUTE and cls_name == 'CNF' and nv == m_nv:
+            w = sat_guided_search(fam, p, nv, impl, m_cnf)
         rp = dict(input=dict(descr, cls=cls_name), numvar=dict(implementation=nv, model=m_nv),
                   correspondence='coq/Fam_*.v (%s) <-> %s' % (name, site), theorems='C01_%s_*' % name)
         if len(impl) <= 400:
@@ -183,6 +279,7 @@ def compare_one(ctx, fam, p, reply, stream):
             rp['model'] = m_cnf if cls_name == 'CNF' else [pbc_to_py(c) for c in m_opb]
         if w is not None:
             rp['witness'] = w
+            found.add((site, cls_name))
             ctx.violation('counterexample', '%s (%s): the formula does not encode its principle: %s' % (site, cls_name, w['reason']),
                           rp, True, site=site, cls='semantics-' + cls_name)
         else:
@@ -202,7 +299,8 @@ def oracle_test(ctx, fam, p, limit):
         return
     impl = [list(c) for c in F]
     ctx.count('oracle-small', (fam['name'], key_of(p)), nv > 0 or len(impl) > 0)
-    w = semantic_search(fam, p, nv, lambda a: cnf_sat(a, impl), limit=limit)
+    w = semantic_search(fam, p, nv, lambda a: cnf_sat(a, impl), limit=limit,
+                        max_mentioned=lambda: max([abs(l) for c in impl for l in c] or [0]))
     if w is not None:
         ctx.violation('counterexample', '%s: the formula does not encode its principle: %s' % (fam['site'], w['reason']),
                       dict(input=dict(family=fam['name'], params=p, cls='CNF'), witness=w, implementation=impl[:200]),
